@@ -97,9 +97,15 @@ def c18_check(pid, tier, seed):
     known = load_known()
     stats = dict(evaluations=0, disagreements=0, oracle_failures=0, oracle_checks=0, families={}, outcomes={}, per_cfg={})
     violations, samples, distinct, build_errors, knowns = [], [], set(), [], {}
+    lib_ok = rc == 0
     if rc != 0:
         build_errors.append((cfg, out[-3000:]))
-    else:
+        # the harness embeds derived items; when one of them stops compiling the crate itself may
+        # still build: compile the per-item crates against it so that the item is named
+        # (cargo builds the dependencies first: if only the harness crate failed, the borsh rlib and the
+        # derive library under target/debug/deps are fresh)
+        lib_ok = 'could not compile `harness`' in out and 'could not compile `borsh' not in out
+    if lib_ok:
         items = c18.build(seed, tier == 'thorough')
         work = os.path.join(BUILD, 'c18', 'work-%d' % os.getpid())
         try:
@@ -498,12 +504,15 @@ def run_check(pid, tier, only_cfgs=None, quiet=False):
                 continue
             raw = {}
             for cfg in (a, b):
-                r = run_workload(pid, cfg, builds[cfg][2], 'C04', seed, tier, extra_env={'HARNESS_RAW_MSG': '1'}, tag='-raw')
-                if 'error' in r:
-                    build_errors.append((cfg, r['error']))
-                    continue
-                raw[cfg] = dict(zip(read_lines(os.path.join(r['outdir'], 'cases.txt')),
-                                    read_lines(os.path.join(r['outdir'], 'impl.txt'))))
+                # malformed input, and scripted reader / writer failures (errors built from a bare
+                # kind display the kind's own description: the shim's table against std's)
+                for rwl in ('C04', 'C11', 'C12'):
+                    r = run_workload(pid, cfg, builds[cfg][2], rwl, seed, tier, extra_env={'HARNESS_RAW_MSG': '1'}, tag='-raw-' + rwl)
+                    if 'error' in r:
+                        build_errors.append((cfg, r['error']))
+                        continue
+                    raw.setdefault(cfg, {}).update(zip(read_lines(os.path.join(r['outdir'], 'cases.txt')),
+                                                       read_lines(os.path.join(r['outdir'], 'impl.txt'))))
             if len(raw) == 2:
                 nraw = 0
                 for c, oa in raw[a].items():
